@@ -1430,7 +1430,16 @@ async fn run_egress(scen_path: &str, out_path: &str, trace_path: &str) {
         n_scen += 1;
         let sender_is_client = sc["sender"] == "client";
         let reps = sc["reps"].as_u64().unwrap_or(1) as usize;
-        let close = sc["close"].as_bool().unwrap_or(false);
+        // "none" | "end" (close() after every send() has returned) | "mid" (close() while the callers are half
+        // way: send() calls race with it and follow it; the state stays Connected after a local close())
+        let close_mode = match &sc["close"] {
+            Value::Bool(true) => "end",
+            Value::String(m) => m.as_str(),
+            _ => "none",
+        }
+        .to_string();
+        let close = close_mode == "end";
+        let close_mid = close_mode == "mid";
         let sizes: Vec<Vec<u64>> = sc["sizes"].as_array().unwrap().iter().map(|a| a.as_array().unwrap().iter().map(|x| x.as_u64().unwrap()).collect()).collect();
         let early = sc["early"].as_bool().unwrap_or(false);
         if early {
@@ -1470,8 +1479,21 @@ async fn run_egress(scen_path: &str, out_path: &str, trace_path: &str) {
         let start = Arc::new(tokio::sync::Barrier::new(plan.len()));
         let mut hs = Vec::new();
         let mut send_errors = Arc::new(Mutex::new(Vec::<String>::new()));
+        let sends_done = Arc::new(AtomicU64::new(0));
+        let total_sends: u64 = plan.iter().map(|v| v.len() as u64).sum();
+        let closer = if close_mid {
+            let (sender, sends_done) = (sender.clone(), sends_done.clone());
+            Some(tokio::spawn(async move {
+                while sends_done.load(Ordering::SeqCst) < total_sends / 2 {
+                    tokio::task::yield_now().await;
+                }
+                sender.close();
+            }))
+        } else {
+            None
+        };
         for (ti, list) in plan.iter().cloned().enumerate() {
-            let (sender, sent, rx_tap, start, errs) = (sender.clone(), sent.clone(), rx_tap.clone(), start.clone(), send_errors.clone());
+            let (sender, sent, rx_tap, start, errs, sends_done) = (sender.clone(), sent.clone(), rx_tap.clone(), start.clone(), send_errors.clone(), sends_done.clone());
             hs.push(tokio::spawn(async move {
                 start.wait().await;
                 for (mi, n) in list.into_iter().enumerate() {
@@ -1500,6 +1522,7 @@ async fn run_egress(scen_path: &str, out_path: &str, trace_path: &str) {
                     if let Err(e) = sender.send(p).await {
                         errs.lock().push(format!("task {ti} msg {mi}: {e}"));
                     }
+                    sends_done.fetch_add(1, Ordering::SeqCst);
                 }
             }));
         }
@@ -1511,6 +1534,21 @@ async fn run_egress(scen_path: &str, out_path: &str, trace_path: &str) {
         }
         let taps = [rx_tap.clone()];
         let tr: Vec<&Arc<Tap>> = taps.iter().collect();
+        let mut expect_records = expect_records;
+        if let Some(c) = closer {
+            let _ = c.await;
+            // one more send() that certainly FOLLOWS the close: wait until the close_notify is on the wire
+            // (positive event; if it never shows the send goes out anyway), then submit
+            let sa = sender_addr;
+            wait_until(&tr, Duration::from_secs(3), || rx_tap.cap.lock().iter().rev().take(4096).any(|c| c.from == sa && c.data[0] == CT_ALERT && rec_epoch(&c.data) >= 1)).await;
+            match sender.send(Bytes::from_static(b"AFTER-CLOSE-SEND")).await {
+                Ok(()) => expect_records += 2, // the alert and this record
+                Err(e) => {
+                    expect_records += 1;
+                    send_errors.lock().push(format!("send after close: {e}"));
+                }
+            }
+        }
         // everything planned has arrived, or the wire has been quiet for a while
         let mut quiet = (rx_tap.total.load(Ordering::SeqCst), Instant::now());
         wait_until(&tr, Duration::from_secs(10), || {
